@@ -251,10 +251,10 @@ impl Prop for Calls {
         "calls"
     }
     fn rule(&self) -> &'static str {
-        "one case = (callee kind: free fn | method | qualified method | struct constructor | qualified variant constructor | leading-dot variant constructor; arity; which parameters have defaults; which defaults and which arguments are calls of a printing tick(); positional prefix length; order of the named arguments); fixed layer = every arity 0..5 (quick: 0..4) x every subset of defaults x every positional prefix x every permutation of every admissible subset of names, tick patterns rotated; output of the named call must equal the output of the positional call with defaults written out and the expected tuple/tick sequence; non-trivial = names out of declaration order or >= 1 defaulted parameter omitted; distinct by the full shape"
+        "one case = (callee kind: free fn | method | qualified method | struct constructor | qualified variant constructor | leading-dot variant constructor; arity; which parameters have defaults; which defaults and which arguments are calls of a printing tick(); positional prefix length; order of the named arguments); fixed layer = every arity 0..5 x every subset of defaults x every positional prefix x every permutation of every admissible subset of names, tick patterns rotated (quick: one of up to three default patterns per shape for arity >= 3, thorough: all); output of the named call must equal the output of the positional call with defaults written out and the expected tuple/tick sequence; non-trivial = names out of declaration order or >= 1 defaulted parameter omitted; distinct by the full shape"
     }
     fn n_cases(&self, tier: Tier) -> u32 {
-        tier.pick(150, 1500)
+        tier.pick(300, 3000)
     }
     fn exhaustive(&self, _tier: Tier) -> bool {
         false
@@ -275,7 +275,7 @@ impl Prop for Calls {
     }
     fn fixed_cases(&self, tier: Tier, _f: &Findings) -> Vec<Self::Case> {
         let mut all = vec![];
-        let max_arity = tier.pick(4u8, 5u8);
+        let max_arity = 5u8;
         let mut k = 0u64;
         for kind in 0..KINDS.len() as u8 {
             for arity in 0..=max_arity {
